@@ -5,7 +5,7 @@ import itertools
 import math
 import unicodedata
 
-from lib import lexcorr
+from lib import corefrag, lexcorr
 from lib.model import enc_str, dec_str, run_driver
 
 LEVEL = "proof"
@@ -159,6 +159,8 @@ def numeric_twins(ctx):
 
 def run(ctx):
     numeric_twins(ctx)
+    # scalars in assignment position at every depth (theorem C04_scalars_survive_text_core)
+    corefrag.run(ctx, ctx.scale(150, 3000), ctx.build_status["drivers"].get("syn", False))
     have_model = ctx.build_status["drivers"].get("syn", False)
     ctx.extra["rule"] = ("strings: exhaustive length<=2 (thorough: <=3) over a %d-symbol alphabet of lexer-significant "
                          "classes and multi-character atoms + random strings up to 60 atoms; ints up to 2^200 and "
